@@ -166,6 +166,10 @@ fn interrupts(ctx: &mut Ctx) {
                 for op1 in [Node::Break, Node::Continue] {
                     for k2 in 0..=5i64 {
                         for op2 in [Node::Break, Node::Continue] {
+                            // when the inner loop selects nothing its else branch runs: an interrupt
+                                // raised there belongs to the enclosing (outer) loop
+                                let else_ops: &[Option<Node>] = if lb == 0 && k2 <= 1 { &[None, Some(Node::Break), Some(Node::Continue)] } else { &[None] };
+                            for else_op in else_ops {
                             for outer_first in [true, false] {
                                 let guard = |k: i64, op: &Node| Node::If {
                                     arms: vec![(Cond::atom(Atom::Cmp(Expr::Var(Path::name("forloop").dot("index")), Op::Eq, Expr::int(k))), vec![op.clone()])],
@@ -188,7 +192,10 @@ fn interrupts(ctx: &mut Ctx) {
                                         Node::Out(Expr::Var(Path::name("forloop").dot("parentloop").dot("length")), vec![]),
                                         t(")"),
                                     ],
-                                    else_: Some(vec![t("e")]),
+                                    else_: Some(match else_op {
+                                        None => vec![t("e")],
+                                        Some(op) => vec![t("e"), op.clone(), t("unreached")],
+                                    }),
                                 };
                                 let mut ob = vec![t("<"), field("forloop", "index")];
                                 if outer_first {
@@ -207,6 +214,7 @@ fn interrupts(ctx: &mut Ctx) {
                                 ];
                                 let c = Case { main: &main, partials: &[], data: &data, family: "break-continue", strip_newlines: false, style_seed: (k1 * 13 + k2) as u64 };
                                 run_case(ctx, &c, la > 0);
+                            }
                             }
                         }
                     }
